@@ -295,6 +295,7 @@ func (ex *Exec) cutState(base *State, cut *Cut) *State {
 	st.prev = nil
 	st.defers = nil
 	tag := cut.Label
+	st.ghost["herr"] = ex.fresh("ghost_herr@"+tag, ErrSort)
 	// regions: non-input contents are unknown
 	for root := range st.store {
 		if r, ok := root.(*Region); ok {
@@ -415,4 +416,41 @@ func (ex *Exec) explore(st *State, b *ssa.BasicBlock, from *Cut, cuts map[*ssa.B
 			ex.unsupported(s, fmt.Sprintf("terminator %T", t), t.Pos())
 		}
 	}
+}
+
+// storedConsts: the integer constants this function stores into elements of []int slices
+// (for the generated machines: the return states pushed on the call stack).
+func (ex *Exec) storedConsts() []int64 {
+	if ex.sconsts != nil {
+		return ex.sconsts
+	}
+	seen := map[int64]bool{}
+	for _, b := range ex.fn.Blocks {
+		for _, ins := range b.Instrs {
+			st, ok := ins.(*ssa.Store)
+			if !ok {
+				continue
+			}
+			ia, ok := st.Addr.(*ssa.IndexAddr)
+			if !ok {
+				continue
+			}
+			sl, ok := ia.X.Type().Underlying().(*types.Slice)
+			if !ok || !types.Identical(sl.Elem(), types.Typ[types.Int]) {
+				continue
+			}
+			c, ok := st.Val.(*ssa.Const)
+			if !ok || c.Value == nil {
+				ex.unsup = append(ex.unsup, "non-constant store into []int")
+				continue
+			}
+			seen[c.Int64()] = true
+		}
+	}
+	ex.sconsts = []int64{}
+	for k := range seen {
+		ex.sconsts = append(ex.sconsts, k)
+	}
+	sort.Slice(ex.sconsts, func(i, j int) bool { return ex.sconsts[i] < ex.sconsts[j] })
+	return ex.sconsts
 }
